@@ -1,5 +1,7 @@
 import Pff.Props.RunC
 import Pff.Props.Bridge
+import Pff.Proofs.Chain
+import Pff.Proofs.Chain2
 /-!
 # One chain from bytes to the run (C01, C09)
 
@@ -64,7 +66,13 @@ theorem C01_chain_A (algo k0 : Nat) (ha : algo = 1 ∨ algo = 2 ∨ algo = 3)
           o.effect = .wrote (restored P ds[i])) ∧
         (∀ out, o.result.output = some out → out = restored P ds[i])) ∧
     exitOf r = 0 := by
-  sorry
+  exact Pff.ChainProofs.chain_generic (codecA algo P.mbs k0) core
+    (Pff.ChainProofs.codecLenA algo P.mbs k0 ha hP.mbs)
+    (Pff.BridgeProofs.codecFactsA algo P.mbs k0 ha hP.mbs)
+    (Pff.BridgeProofs.decFactsA algo P.mbs k0 ha hP.mbs core hW)
+    H hashLen hH P rfl hP.hash hP.kMain hP.kOf hP.kIntra _ rfl pre ds hfiles hdistinct
+    (fun d hd => ⟨(hcap d hd).lenNow, (hcap d hd).lenTrack, (hcap d hd).bytesOrig, (hcap d hd).bytesNow,
+      (hcap d hd).bytesTrack, (hcap d hd).blocks⟩) hacc
 
 theorem C01_chain_B (k0 : Nat)
     (core : Core (Elt pB)) (H : List Nat → List Nat) (hashLen : Nat) (hH : ∀ m, (H m).length = hashLen)
@@ -85,7 +93,13 @@ theorem C01_chain_B (k0 : Nat)
           o.effect = .wrote (restored P ds[i])) ∧
         (∀ out, o.result.output = some out → out = restored P ds[i])) ∧
     exitOf r = 0 := by
-  sorry
+  exact Pff.ChainProofs.chain_generic (codecB P.mbs k0) core
+    (Pff.ChainProofs.codecLenB P.mbs k0 hP.mbs)
+    (Pff.BridgeProofs.codecFactsB P.mbs k0 hP.mbs)
+    (Pff.BridgeProofs.decFactsB P.mbs k0 hP.mbs core hW)
+    H hashLen hH P rfl hP.hash hP.kMain hP.kOf hP.kIntra _ rfl pre ds hfiles hdistinct
+    (fun d hd => ⟨(hcap d hd).lenNow, (hcap d hd).lenTrack, (hcap d hd).bytesOrig, (hcap d hd).bytesNow,
+      (hcap d hd).bytesTrack, (hcap d hd).blocks⟩) hacc
 
 /-- the entry (without marker) made of the given parts -/
 def bodyOfParts (p : EntryParts) : List Nat := (genEntry p).drop marker.length
@@ -131,6 +145,17 @@ theorem C09_run_metadata_within_capacity (O : Ops) (P : Pff.Run.Params) (fs : FS
     (hp : MetaPristine O P p) (hm : MetaWithinCapacity O P p p') :
     view (processEntry O P fs (X ++ bodyOfParts p' ++ Y) X.length (X.length + (bodyOfParts p').length)) =
       view (processEntry O P fs (X ++ bodyOfParts p ++ Y) X.length (X.length + (bodyOfParts p).length)) := by
-  sorry
+  have hml : (Pff.Run.C.metaOf p').length = (Pff.Run.C.metaOf p).length := by
+    rw [Pff.Run.C.metaOf_length, Pff.Run.C.metaOf_length, hm.lenPath, hm.lenSize, hm.lenPathEcc, hm.lenSizeEcc]
+  have hne' : p'.path ≠ [] := by
+    intro h
+    have := hm.lenPath
+    rw [h] at this
+    exact hm.nonempty (List.length_eq_zero_iff.mp this.symm)
+  unfold bodyOfParts
+  rw [Pff.Run.C.genEntry_drop, Pff.Run.C.genEntry_drop]
+  exact Pff.Run.Chain.view_same_meta O P fs X Y p p' p.path p.sizeTxt hm.track hml
+    (by rw [Pff.Run.C.metaOf_length]; have := hm.short; omega) hm.nonempty hne' hm.clean hm.clean' hp
+    (Pff.Run.Chain.decoded_of_ok O P p p' hm.lenPath hm.lenSize hm.pathOK hm.sizeOK)
 
 end Pff.Chain
